@@ -27,7 +27,7 @@ Example C18_example :
   (* state observed after backtracking out of a two-token alternative *)
   let g := Or (Then (Just [97; 98]%N) (Just [120%N])) (MapWith MWState (Just [97%N])) in
   fst (go no_quirks KRich toks (fun a b => (a, b)) 12 Emit g VUnit init_st)
-    = Ok (Some (VPair (VList [VTok 97%N]) (VNat (N.to_nat (ust_at toks 1))))).
+    = Ok (Some (VPair (VList [VTok 97%N]) (VNum (ust_at toks 1)))).
 Proof. vm_compute. reflexivity. Qed.
 
 Print Assumptions C18_state_is_fold_of_consumed_prefix.
